@@ -214,3 +214,34 @@ def separate_profiles(default_profile, make_policy):
             EXEC_PROFILE_GRAPH_DEFAULT: GraphExecutionProfile(load_balancing_policy=make_policy()),
             EXEC_PROFILE_GRAPH_SYSTEM_DEFAULT: GraphExecutionProfile(load_balancing_policy=make_policy(), request_timeout=180.),
             EXEC_PROFILE_GRAPH_ANALYTICS_DEFAULT: GraphAnalyticsExecutionProfile(load_balancing_policy=make_policy())}
+
+
+class OrderedIdentitySet(object):
+    """stands in for Cluster.sessions (a WeakSet, iterated in id()/memory-address order, which differs
+    from run to run): same interface as far as the driver uses it, iteration in insertion order"""
+
+    def __init__(self):
+        self._items = []
+
+    def add(self, x):
+        if not any(x is y for y in self._items):
+            self._items.append(x)
+
+    def discard(self, x):
+        self._items = [y for y in self._items if y is not x]
+
+    remove = discard
+
+    def __iter__(self):
+        return iter(list(self._items))
+
+    def __len__(self):
+        return len(self._items)
+
+    def __contains__(self, x):
+        return any(x is y for y in self._items)
+
+
+def deterministic_sessions(cluster):
+    cluster.sessions = OrderedIdentitySet()
+    return cluster
